@@ -132,6 +132,19 @@ theorem read_whole (f : File) (h : f.WF) (idx : Index) (hidx : newIndex f.render
     rw [Nat.min_eq_left (by omega)]
     exact List.take_length
 
+/-- `Reset` after any amount of reading puts the handle back to the state `SeqRange` returned, so every
+statement of `read_exact` holds again after a `Reset`. -/
+theorem reset_restores (idx : Index) (name : Bytes) (s e : Int) (sq : Seq)
+    (h : seqRange idx name s e = .ok sq) (cur : Nat) : ({ sq with cur := cur } : Seq).reset = sq := by
+  unfold seqRange at h
+  split at h
+  · cases h
+  · split at h
+    · cases h
+    · split at h
+      · cases h
+      · cases h; rfl
+
 /-- Ranges outside `0 ≤ start ≤ end ≤ length` are refused (no `Seq` is handed out), for any index. -/
 theorem seqRange_refuses (idx : Index) (name : Bytes) (s e : Int) (R : Record)
     (hR : idx.lookup name = some R) (hbad : s < 0 ∨ e < s ∨ (R.length : Int) < e) :
@@ -141,6 +154,22 @@ theorem seqRange_refuses (idx : Index) (name : Bytes) (s e : Int) (R : Record)
   · simp [h0]
   · have h2 : (R.length : Int) < s ∨ (R.length : Int) < e := by omega
     simp [h0, hR, h2]
+
+/-! ### NewIndex rejects (two of the code's error branches, after any well-formed prefix whose lines are
+all terminated) -/
+
+/-- a line that is `>` alone, possibly surrounded by white space: "fai: missing sequence name" -/
+theorem newIndex_rejects_nameless_header (f : File) (h : f.WF) (hfin : ∀ r ∈ f.recs, r.finalNewline = true)
+    (line rest : Bytes) (hl : Hts.Lemmas.Fai.Term line) (hb : trimSpace line = [GT]) :
+    newIndex (f.render ++ (line ++ rest)) = .error .missingName :=
+  Hts.Lemmas.Fai.newIndex_nameless f h hfin line rest hl hb
+
+/-- a header repeating the name of an earlier record: "fai: duplicate sequence identifier" -/
+theorem newIndex_rejects_duplicate (f : File) (h : f.WF) (hfin : ∀ r ∈ f.recs, r.finalNewline = true)
+    (r : Rec) (hr : r ∈ f.recs) (d t rest : Bytes) (hd : Hts.Lemmas.Fai.DescTail d)
+    (ht : ∀ b ∈ t, isSpace b = true) (hl : Hts.Lemmas.Fai.Term (GT :: (r.name ++ d) ++ t)) :
+    newIndex (f.render ++ ((GT :: (r.name ++ d) ++ t) ++ rest)) = .error .duplicate :=
+  Hts.Lemmas.Fai.newIndex_duplicate f h hfin r hr d t rest hd ht hl
 
 /-! ### WriteTo / ReadFrom -/
 
@@ -223,6 +252,13 @@ example : ({ recs := [{ name := [97], desc := none, bases := [], width := 1, eol
                         blanksAfter := [[]] },
                       { name := [98], desc := some [9], bases := [65], width := 60, eol := .lf,
                         finalNewline := true, blanksAfter := [] }] } : File).WF := by decide
+
+/-- the hypotheses of the rejection theorems are satisfiable: the line `>\n`, and the header `>s1 x\n` -/
+example : Hts.Lemmas.Fai.Term [62, 10] ∧ trimSpace [62, 10] = [GT] :=
+  ⟨⟨[62], by decide, rfl⟩, by decide⟩
+
+example : Hts.Lemmas.Fai.DescTail [32, 120] ∧ Hts.Lemmas.Fai.Term (GT :: ([115, 49] ++ [32, 120]) ++ [10]) :=
+  ⟨Or.inr ⟨32, [120], rfl, by decide, by decide⟩, ⟨[62, 115, 49, 32, 120], by decide, rfl⟩⟩
 
 /-- the hypotheses of `fai_roundtrip` are satisfiable by a two-record index -/
 example : IndexOK [⟨[97], 6, 3, 4, 5⟩, ⟨[98], 6, 15, 4, 5⟩] := by
